@@ -1703,6 +1703,19 @@ def m_partition_point(ex, st, call, args):
     return gen(st, 0)
 
 
+def m_option_cloned(ex, st, call, args):
+    """Option<&T>::cloned / copied when the variant is known"""
+    v = ex.canon(st, args[0])
+    if v[0] != "adt" or v[1] != "core::option::Option":
+        return NotImplemented
+    if v[2] == "None":
+        return _ret(st, v)
+    x = v[3][0]
+    while x[0] == "&":
+        x = x[1]
+    return _ret(st, ("adt", "core::option::Option", "Some", (x,)))
+
+
 def m_bool_then(ex, st, call, args):
     """bool::then(c, f) = if c { Some(f()) } else { None }"""
     try:
@@ -1883,6 +1896,10 @@ DEFAULT_MODELS = {
     "core::option::Option::<T>::or": m_option_or,
     "core::option::Option::<T>::map_or": m_option_map_or,
     "core::bool::<impl bool>::then": m_bool_then,
+    "core::option::Option::<&T>::cloned": m_option_cloned,
+    "core::option::Option::<&T>::copied": m_option_cloned,
+    "core::option::Option::<&mut T>::cloned": m_option_cloned,
+    "core::option::Option::<&mut T>::copied": m_option_cloned,
     "core::slice::<impl [T]>::partition_point": m_partition_point,
     "<core::option::Option<T> as core::cmp::PartialEq>::eq": m_option_eq,
     "core::result::Result::<T, E>::is_ok": m_result_is(True),
